@@ -407,6 +407,11 @@ class ServerBase:
                 self.handle_disconnect(outgoing[0])
                 _logger.warning('Connection reset while sending message.')
                 continue
+            except OSError:
+                if outgoing[0].closed:
+                    # Closed by the main thread after the check above
+                    continue
+                raise
 
             if _logger.isEnabledFor(logging.DEBUG):
                 to = self.get_to_string(outgoing[0])
